@@ -225,6 +225,9 @@ func cmdCheck(args []string) int {
 		for k, v := range st.Limits {
 			fmt.Printf("  INCONCLUSIVE limit x%d: %s\n", v, k)
 		}
+		for k, v := range st.Ends {
+			fmt.Printf("  path end x%d: %s\n", v, k)
+		}
 		if st.Unknowns > 0 || st.SolverErrors > 0 {
 			fmt.Printf("  INCONCLUSIVE solver unknown=%d errors=%d\n", st.Unknowns, st.SolverErrors)
 		}
